@@ -21,7 +21,7 @@ CONSTANTS Clusters, Attrs, TolMs, SlackMs
 Rec == ndJsonDeserialize(IOEnv.TRACE)
 All == Clusters \X Attrs
 Sel(paths) == {p \in All : \E k \in 1..Len(paths) : (paths[k][1] \in {-1, p[1]}) /\ (paths[k][2] \in {-1, p[2]})}
-NoSub == [live |-> FALSE, ending |-> FALSE, est |-> FALSE, sel |-> {}, min |-> 0, max |-> 0, id |-> -1, last |-> 0, mid |-> FALSE, known |-> [p \in All |-> -1]]
+NoSub == [live |-> FALSE, ending |-> FALSE, est |-> FALSE, sel |-> {}, min |-> 0, max |-> 0, id |-> -1, last |-> 0, mid |-> FALSE, got |-> {}, known |-> [p \in All |-> -1]]
 VARIABLES i, ver, sub, lossy
 vars == <<i, ver, sub, lossy>>
 Init == i = 1 /\ ver = [p \in All |-> 0] /\ sub = [s \in 1..2 |-> NoSub] /\ lossy = FALSE
@@ -38,10 +38,11 @@ SubReq == IsEvent("SubReq") /\ UNCHANGED <<ver, lossy>>
 Lose == IsEvent("Lose") /\ lossy' = TRUE /\ UNCHANGED <<ver, sub>>
 Prime == IsEvent("Prime") /\ R.malformed = "" /\ sub[R.s].live /\ ~sub[R.s].est /\ UNCHANGED <<ver, sub, lossy>>
 ValueOk(s, p, v) == p \in sub[s].sel /\ v >= 0 /\ v <= ver[p] /\ v >= sub[s].known[p]
-PItem == IsEvent("PItem") /\ sub[R.s].live /\ ~sub[R.s].est /\ ValueOk(R.s, P, R.v)
-         /\ sub' = [sub EXCEPT ![R.s].known[P] = R.v] /\ UNCHANGED <<ver, lossy>>
+\* (C14 on the priming report: every selected attribute exactly once)
+PItem == IsEvent("PItem") /\ sub[R.s].live /\ ~sub[R.s].est /\ ValueOk(R.s, P, R.v) /\ P \notin sub[R.s].got
+         /\ sub' = [sub EXCEPT ![R.s].known[P] = R.v, ![R.s].got = @ \cup {P}] /\ UNCHANGED <<ver, lossy>>
 Est == IsEvent("Est") /\ sub[R.s].live /\ ~sub[R.s].est
-       /\ \A p \in sub[R.s].sel : sub[R.s].known[p] >= 0                   \* the priming report carried everything
+       /\ sub[R.s].got = sub[R.s].sel                                       \* the priming report carried everything
        /\ R.max >= sub[R.s].min
        /\ sub' = [s \in 1..2 |-> IF s = R.s THEN [sub[s] EXCEPT !.est = TRUE, !.id = R.id, !.max = R.max, !.last = R.t]
                                    ELSE IF sub[s].ending THEN NoSub ELSE sub[s]]
